@@ -119,6 +119,8 @@ def explore(spec, per_state, *, seed=0, workers=None, log=None, time_cap=None):
     global _FN, _SPEC
     _FN, _SPEC = per_state, spec
     workers = workers or int(os.environ.get("VERIF_WORKERS", os.cpu_count() or 1))
+    if time_cap is None and os.environ.get("EGMC_POOL_CAP_S"):
+        time_cap = float(os.environ["EGMC_POOL_CAP_S"])
     t0 = time.time()
     seqs = sequences(spec)
     if seed:
